@@ -1,4 +1,5 @@
 import Soa.Model.Exec
+import Soa.Model.Zip
 open Soa Soa.Exec
 
 /-- line-protocol driver: reads scenarios (`shape …` line, then one operation per line) from
@@ -31,6 +32,16 @@ partial def loop (prof : IdxIR.Prof) (h : IO.FS.Stream) (st : Option (Ctx × Wor
       loop prof h (some (cx, w', n + 1)) k
     | none => IO.println "bad-op"; loop prof h st k
 
+/-- `zip` mode: one `soa_zip!` invocation form per line -/
+partial def zipLoop (h : IO.FS.Stream) : IO Unit := do
+  let line ← h.getLine
+  if line.isEmpty then return ()
+  IO.println (Soa.Zip.zipLine line)
+  zipLoop h
+
 def main (args : List String) : IO Unit := do
+  if args == ["zip"] then
+    zipLoop (← IO.getStdin)
+    return ()
   let prof : IdxIR.Prof := if args == ["release"] then .release else .debug
   loop prof (← IO.getStdin) none 0
